@@ -29,3 +29,30 @@ Proof.
   change (27 :: 93 :: [56; 59; 59] ++ [27; 92]) with (27 :: 93 :: [56; 59; 59] ++ [27; 92]).
   rewrite H2. cbn. apply app_nil_r.
 Qed.
+
+(* Link targets.  format_osc8_file_hyperlink has the shape Links.v models (pinned from the source on
+   every run) ... *)
+From Coq Require Import String.
+From DV Require Import Text Links LinksFacts GenLinks.
+
+Theorem C19_file_link_url_is_modelled : file_link_url_is_modelled = true.
+Proof. reflexivity. Qed.
+
+(* ... and for every template  pre {path} mid {line} post  without other braces, every brace-free path
+   and every line number the target is exactly  pre path mid <decimal number> post; a link without a line
+   number gets nothing in the place of {line}; a template without {line} (the default file://{path})
+   gets the path and nothing else *)
+Theorem C19_file_link_target_with_line : forall pre mid post path n,
+  no_brace pre -> no_brace mid -> no_brace post -> no_brace path ->
+  file_url (pre ++ P_PATH ++ mid ++ P_LINE ++ post) path None (Some n) = pre ++ path ++ mid ++ decimal n ++ post.
+Proof. exact file_url_with_line. Qed.
+
+Theorem C19_file_link_target_without_line : forall pre mid post path,
+  no_brace pre -> no_brace mid -> no_brace post -> no_brace path ->
+  file_url (pre ++ P_PATH ++ mid ++ P_LINE ++ post) path None None = pre ++ path ++ mid ++ post.
+Proof. exact file_url_without_line. Qed.
+
+Theorem C19_file_link_target_path_only : forall pre post path line,
+  no_brace pre -> no_brace post -> no_brace path ->
+  file_url (pre ++ P_PATH ++ post) path None line = pre ++ path ++ post.
+Proof. exact file_url_path_only. Qed.
